@@ -225,6 +225,50 @@ func runC07(t *mon.T, raw json.RawMessage) {
 			}
 			t.Events(1)
 		}
+		// two listings open at once with Roots() called between their keys: each listing is its own
+		// front-to-back pass over the payload, whatever else reads through the same store meanwhile
+		if ch1, err := ro.AllKeysChan(bg); err == nil {
+			var k1, k2 []string
+			if c, ok := <-ch1; ok {
+				k1 = append(k1, string(c.Bytes()))
+			} else {
+				ch1 = nil
+			}
+			if rs, err := ro.Roots(); err != nil || !lab.CidsEqual(rs, ref.Header.Roots) {
+				t.Violatef(name+"/Roots/differs-while-listing", "%s: Roots() during a listing = %v, %v; header has %d roots", name, rs, err, len(ref.Header.Roots))
+			}
+			ch2, err2 := ro.AllKeysChan(bg)
+			if err2 != nil {
+				t.Violatef(name+"/AllKeysChan/error", "%s: second listing while one is open: %v", name, err2)
+				ch2 = nil
+			}
+			for step := 0; ch1 != nil || ch2 != nil; step++ {
+				if ch1 != nil {
+					if c, ok := <-ch1; ok {
+						k1 = append(k1, string(c.Bytes()))
+					} else {
+						ch1 = nil
+					}
+				}
+				if ch2 != nil && step%3 != 1 {
+					if c, ok := <-ch2; ok {
+						k2 = append(k2, string(c.Bytes()))
+					} else {
+						ch2 = nil
+					}
+				}
+				if step%4 == 2 {
+					ro.Roots()
+				}
+			}
+			if !lab.StringsEqual(k1, scanKeys) || (err2 == nil && !lab.StringsEqual(k2, scanKeys)) {
+				t.ViolateD(name+"/AllKeysChan/overlapped-listings-differ", map[string]any{"first": len(k1), "second": len(k2), "want": len(scanKeys)}, "%s: of two listings open at once (Roots() called between keys) one is not the scan's CID sequence", name)
+			}
+			if len(scanKeys) > 7 {
+				t.Cover("overlapped-listings-longer-than-the-channel-buffer")
+			}
+			t.Events(2)
+		}
 		for _, q := range queries {
 			k, err := lab.TryCid(q)
 			if err != nil {
@@ -467,7 +511,7 @@ func init() {
 	Register(&mon.Check{
 		ID:          "C07",
 		Level:       "exploration",
-		Rule:        "cases = seeded archives (synthetic + honest CIDs; duplicates, same multihash under other codecs, same key with different bytes, identity twins) in 5 container forms x {UseWholeCIDs, StoreIdentityCIDs} x {embedded/generated index, supplied index built by the library or by the reference in either codec}; every present CID and 4-5 absent neighbours each are queried through blockstore.NewReadOnly, OpenReadOnly and storage.OpenReadable and compared with a reference scan; AllKeysChan must equal the scan's CID sequence in order",
+		Rule:        "cases = seeded archives (synthetic + honest CIDs; duplicates, same multihash under other codecs, same key with different bytes, identity twins) in 5 container forms x {UseWholeCIDs, StoreIdentityCIDs} x {embedded/generated index, supplied index built by the library or by the reference in either codec}; every present CID and 4-5 absent neighbours each are queried through blockstore.NewReadOnly, OpenReadOnly and storage.OpenReadable and compared with a reference scan; AllKeysChan must equal the scan's CID sequence in order, also for two listings open at once with Roots() called between their keys",
 		Assumptions: []string{"reference scan (refcar) is the model", "GetSize of an absent identity CID with StoreIdentityCIDs on: a size or a not-found answer are both accepted (the block is implied by its CID)"},
 		Gen:         genC07,
 		Run:         runC07,
